@@ -135,7 +135,12 @@ def run_equiv(case, rec):
     preset = PRESETS[int(rng.integers(3))]
     z = atoms.get_atomic_numbers()
     has_undef = False
-    if preset != "vdw" and rng.random() < 0.6 and len(z):
+    light = rng.random() < 0.25
+    if light and len(z):
+        # light elements only: more atoms than the largest atomic number
+        z = rng.choice([1, 6, 7, 8], size=len(z))
+        atoms.set_atomic_numbers(z)
+    if preset != "vdw" and not light and rng.random() < 0.6 and len(z):
         k = max(1, int(len(z) * rng.uniform(0.05, 0.5)))
         idx = rng.choice(len(z), size=min(k, len(z)), replace=False)
         z[idx] = rng.choice(UNDEF, size=len(idx))
